@@ -174,3 +174,87 @@ theorem outputGt_no_conflict (gic gif gim : Gt) (c f m : Nat × Nat)
     · exact mem_mkGt2_right _ _
 
 end WhVerif.C05.L
+
+namespace WhVerif.C05.L
+open WhVerif.C05
+
+/-- the statement about a result list `res = map (allelesFor …) (range size)` -/
+theorem result_child_entry (ped : Ped) (t : Nat) (cost : Nat → Nat) (adm : List Nat) (best : Nat)
+    (res : List (Nat × Nat)) (hres : res = (List.range ped.size).map (allelesFor ped t cost adm best))
+    (c k f m c' : Nat) (hk : tripleIndex ped c = some k) (htr : ped.triples[k]? = some (f, m, c'))
+    (hc : c < ped.size) (hf : f < ped.size) (hm : m < ped.size)
+    (hpc : (hapToPartition ped t c).isSome = true) :
+    ∃ ec ef em, res[c]? = some ec ∧ res[f]? = some ef ∧ res[m]? = some em ∧
+      ec.1 = (if t.testBit (2 * k) then ef.1 else ef.2) ∧
+      ec.2 = (if t.testBit (2 * k + 1) then em.1 else em.2) ∧
+      (ec.1 = 3 ∨ ec.1 ≤ 1) ∧ (ec.2 = 3 ∨ ec.2 ≤ 1) := by
+  cases hp : hapToPartition ped t c with
+  | none => rw [hp] at hpc; cases hpc
+  | some pc =>
+    obtain ⟨e0, e1⟩ := allelesFor_child ped t cost adm best c k f m c' pc hk htr hp
+    refine ⟨_, _, _, by rw [hres]; exact map_range_getElem? _ _ _ hc, by rw [hres]; exact map_range_getElem? _ _ _ hf,
+      by rw [hres]; exact map_range_getElem? _ _ _ hm, e0, e1, ?_, ?_⟩
+    · rw [allelesFor_eq hp]; exact hapEntry_cases _ _ _ _
+    · rw [allelesFor_eq hp]; exact hapEntry_cases _ _ _ _
+
+/-- every assignment whatsoever gives the child the alleles of the transmitted parental haplotypes -/
+theorem indivAlleles_child (ped : Ped) (t asg : Nat) (c k f m c' : Nat)
+    (hk : tripleIndex ped c = some k) (htr : ped.triples[k]? = some (f, m, c'))
+    (ca : Nat × Nat) (hca : indivAlleles ped t asg c = some ca) :
+    ∃ fa ma, indivAlleles ped t asg f = some fa ∧ indivAlleles ped t asg m = some ma ∧
+      ca.1 = (if t.testBit (2 * k) then fa.1 else fa.2) ∧ ca.2 = (if t.testBit (2 * k + 1) then ma.1 else ma.2) := by
+  cases hp : hapToPartition ped t c with
+  | none => simp [indivAlleles, hp] at hca
+  | some pc =>
+    obtain ⟨pf, pm, hpf, hpm, h0, h1⟩ := child_partitions ped t c k f m c' pc hk htr hp
+    rw [indivAlleles_eq hp] at hca
+    cases hca
+    refine ⟨_, _, indivAlleles_eq hpf, indivAlleles_eq hpm, ?_, ?_⟩
+    · simp only; rw [h0]; split <;> rfl
+    · simp only; rw [h1]; split <;> rfl
+
+end WhVerif.C05.L
+
+namespace WhVerif.C05.L
+open WhVerif.C05
+
+theorem glCost_fold_some (ped : Ped) (t : Nat) (gls : List Gl) (asg : Nat) : ∀ (l : List Nat) (acc : Option Nat),
+    (l.foldl (fun acc i =>
+      match acc, indivAlleles ped t asg i, gls[i]? with
+      | some a, some (a0, a1), some gl =>
+        match gl[a0 + a1]? with
+        | some g => some (a + g)
+        | none => none
+      | _, _, _ => none) acc).isSome = true → ∀ i ∈ l, (indivAlleles ped t asg i).isSome = true := by
+  intro l
+  induction l with
+  | nil => intro _ _ i hi; cases hi
+  | cons x xs ih =>
+    intro acc h i hi
+    rw [List.foldl_cons] at h
+    rcases List.mem_cons.mp hi with rfl | hi'
+    · cases hx : indivAlleles ped t asg i with
+      | some _ => rfl
+      | none =>
+        exfalso
+        have : (match acc, (none : Option (Nat × Nat)), gls[i]? with
+          | some a, some (a0, a1), some gl =>
+            match gl[a0 + a1]? with
+            | some g => some (a + g)
+            | none => none
+          | _, _, _ => none) = none := by
+          cases acc <;> rfl
+        rw [hx, this, glCost_fold_none] at h
+        cases h
+    · exact ih _ h i hi'
+
+/-- a candidate of the likelihood variant gives every individual two partitions -/
+theorem assignmentsLik_indiv {ped : Ped} {t : Nat} {gls : List Gl} {asg : Nat} (h : asg ∈ assignmentsLik ped t gls)
+    (i : Nat) (hi : i < ped.size) : (hapToPartition ped t i).isSome = true := by
+  have h1 := glCost_fold_some ped t gls asg _ _ (mem_assignmentsLik.mp h).2 i (List.mem_range.mpr hi)
+  unfold indivAlleles at h1
+  cases hp : hapToPartition ped t i with
+  | none => rw [hp] at h1; cases h1
+  | some _ => rfl
+
+end WhVerif.C05.L
